@@ -84,15 +84,18 @@ Definition check03 (mode : N) (c : case03) : N :=
   | None => 1     (* the model cannot follow the schedule the implementation took *)
   | Some (st, ls) =>
       let ths := combine (seq 0 n) (k3_threads c) in
+      (* a one-tier deployment keeps its only backend in the second cell component *)
+      let one := forallb (fun th => is_one (th_kind th)) (k3_threads c) in
       let corr :=
         forallb (fun x => let '(t, th) := x in
                    list_eqb bytes_eqb (replies_of now (th_kind th) (th_reqs th) (thread_done cell sres st t)) (th_replies th) &&
                    Bool.eqb (th_closed th) (match thr cell sres st t with TDead _ _ _ => true | _ => false end)) ths &&
         (if k3_locking c then list_eqb grant_eqb (grants_of slot_of (k3_multi c) ls) (k3_grants c) else true) &&
-        stores_agree now (k3_keys c) (cell_store st false) (of_dump (k3_l1 c)) &&
-        stores_agree now (k3_keys c) (cell_store st true) (of_dump (k3_l2 c)) in
-      let d1 := of_dump (k3_l1 c) in
-      let d2 := of_dump (k3_l2 c) in
+        (if one then stores_agree now (k3_keys c) (cell_store st true) (of_dump (k3_l1 c))
+         else stores_agree now (k3_keys c) (cell_store st false) (of_dump (k3_l1 c)) &&
+              stores_agree now (k3_keys c) (cell_store st true) (of_dump (k3_l2 c))) in
+      let d1 := if one then empty_store else of_dump (k3_l1 c) in
+      let d2 := if one then of_dump (k3_l1 c) else of_dump (k3_l2 c) in
       let oracle :=
         if mode =? 3 then
           (* linearizable: replies are those of the reference map replayed at the linearization
